@@ -1107,7 +1107,10 @@ impl<Tr: ?Sized + TrOps, M: BackOps> World<Tr, M> {
                     9 => unsafe { lib!(vv.downcast_ref_unchecked::<T>()) }.get(i).map(|x| (x.token(), 1, sz as u64)),
                     10 => if i < vv.len() { let tv = unsafe { lib!(vv.downcast_ref_unchecked::<T>()) }; Some((unsafe { lib!(tv.get_unchecked(i)) }.token(), 1, sz as u64)) } else { None },
                     11 => if i < vv.len() { let mut e = unsafe { lib!(vv.get_unchecked_mut(i)) }; let t = unsafe { lib!(e.downcast_mut_unchecked::<T>()) }.token(); Some((t, 1, lib!(e.size()) as u64)) } else { None },
-                    _ => if i < vv.len() { let mut tv = unsafe { lib!(vv.downcast_mut_unchecked::<T>()) }; Some((unsafe { lib!(tv.get_unchecked_mut(i)) }.token(), 1, sz as u64)) } else { None },
+                    12 => if i < vv.len() { let mut tv = unsafe { lib!(vv.downcast_mut_unchecked::<T>()) }; Some((unsafe { lib!(tv.get_unchecked_mut(i)) }.token(), 1, sz as u64)) } else { None },
+                    // copies of the shared handles: a cloned ElementRef (the original dropped first), a cloned typed view
+                    13 => lib!(vv.get(i)).map(|e| { let e2 = lib!(e.clone()); drop(e); (lib!(e2.downcast_ref::<T>()).unwrap().token(), (lib!(e2.value_typeid()) == TypeId::of::<T>()) as u64, lib!(e2.size()) as u64) }),
+                    _ => { let r = lib!(vv.downcast_ref::<T>()).unwrap(); let r2 = lib!(r.clone()); drop(r); lib!(r2.get(i)).map(|x| (x.token(), 1, sz as u64)) }
                 };
                 match r {
                     None => out = 1,
